@@ -76,7 +76,7 @@ prop('C14',
 
 prop('C19',
      quick=dict(sweep=True, pbt=(60000, 300, 6), fuzz=(200000, 300, 4)),
-     thorough=dict(sweep=True, pbt=(2000000, 400, 10), fuzz=(6000000, 400, 5), stage_timeout=3600),
+     thorough=dict(sweep=True, pbt=(2000000, 400, 10), fuzz=(2500000, 400, 5), stage_timeout=3600),
      floor=dict(quick=5000000, thorough=4000000000), alloc_cap_mb=64,
      rule=("Sweep (exhaustive): all 820 strings of length <=3 over {a,A,b,Z,z,0,_,.,/} - every unordered pair for asymmetry, IsEqual == ASCII case-fold "
            "equality == incomparability, PathsAreEqual symmetry and containment of IsEqual; every triple of the 91 strings of length <=2 for transitivity of "
@@ -140,7 +140,7 @@ prop('C04',
 
 prop('C01',
      quick=dict(sweep=True, pbt=(4000, 900, 10), fuzz=(8000, 900, 4)),
-     thorough=dict(sweep=True, pbt=(200000, 2500, 11), fuzz=(400000, 2500, 4), stage_timeout=3400),
+     thorough=dict(sweep=True, pbt=(200000, 2500, 11), fuzz=(160000, 2500, 4), stage_timeout=3400),
      floor=dict(quick=4000, thorough=100000), alloc_cap_mb=64,
      rule=("File sets decoded from a tape: 0..12 files (thorough ..40), sizes from {0,1,2,3,4,5..64,131071..131075,262143..262146,<=40000 (thorough 300000),<300}, pseudo-random "
            "contents, names of 1..24 characters over letters of both cases, digits and the punctuation _^[]`-.,+=@#~!(){} and space (distinct ignoring case; one later name in four extends an earlier name in another letter case by .txt/.old/x/_/0/./space - prefix-related names), placed in ./in/, "
@@ -263,7 +263,7 @@ prop('C20',
 
 prop('C06',
      quick=dict(sweep=True, pbt=(12000, 700, 10), fuzz=(40000, 700, 5)),
-     thorough=dict(sweep=True, pbt=(600000, 900, 11), fuzz=(3000000, 900, 5), stage_timeout=3400),
+     thorough=dict(sweep=True, pbt=(600000, 900, 11), fuzz=(1000000, 900, 5), stage_timeout=3400),
      floor=dict(quick=16000, thorough=500000), alloc_cap_mb=256,
      rule=("Logical maps decoded from a tape and serialised by an independent encoder: log2 width 0..10, height 0..(tiles <= 65536; thorough 2^20), tile words random / multiplicative / low-half, "
            "arbitrary clip rectangle, 0..8 tileset sources (names 0..8 bytes, empty names carry no tile count), 0..40 or 2048 mappings (all four 16-bit fields arbitrary in half the maps), 0..4 terrain types (264 bytes), 0..6 tile groups incl. zero "
